@@ -272,7 +272,7 @@ func rtOracle(r *rtRun, prop string) []string {
 		if r.shutdownOK && !r.cfg.stuck {
 			submitted, delivered := 0, 0
 			for _, sb := range r.submits {
-				if (sb.kind == "stackErr" || sb.kind == "verifyErr") && sb.qlen < 64 && (r.rootCancelStep == 0 || sb.step < r.rootCancelStep) {
+				if (sb.kind == "stackErr" || sb.kind == "verifyErr") && sb.qlen < 64 && sb.doneStep != 0 && (r.rootCancelStep == 0 || sb.doneStep < r.rootCancelStep) {
 					submitted++
 				}
 			}
